@@ -244,6 +244,19 @@ def probes(root, paths, absent=(), visit_stop=True):
         out["parent:" + p] = n.parent.name
         if not is_ds(n):
             out["len:" + p] = len(n)
+            # every listing form of the group protocol
+            ks = sorted(n.keys())
+            out["listing:" + p] = [ks == sorted(k for k in n), ks == sorted(k for k, _ in n.items()), len(list(n.values())) == len(ks),
+                                   all(n.get(k) is not None for k in ks)]
+        else:
+            # partial reads and the shape information of the dataset protocol
+            out["ndim:" + p] = n.ndim
+            out["ellipsis:" + p] = norm(n[...])
+            if n.ndim and not isinstance(n[()], h5py.Empty) and len(n[()]):
+                out["first:" + p] = norm(n[0])
+                out["slice:" + p] = norm(n[1:])
+        _attr_probes(out, p, n)
+    _attr_probes(out, "/", root)
     out["len:/"] = len(root)
     # visit/visititems stop as soon as the callback returns something that is not None -- also falsy values
     for stopval in ((0, "", False, b"") if visit_stop else ()):
@@ -259,6 +272,14 @@ def probes(root, paths, absent=(), visit_stop=True):
         out["in:" + p] = p in root
         out["get:" + p] = root.get(p) is None
     return out
+
+
+def _attr_probes(out, p, n):
+    """The mapping interface of attrs beyond items(): keys/iter/len/in/[]/get agree with each other."""
+    a = n.attrs
+    ks = sorted(a.keys())
+    out["attrs:" + p] = [ks, sorted(k for k in a), len(a), [k in a for k in ks], [norm(a[k]) for k in ks], [norm(a.get(k)) for k in ks],
+                         "zz-no-such" in a, a.get("zz-no-such") is None, a.get("zz-no-such", 5) == 5]
 
 
 def full_dump(root, absent=(), probe_paths=None):
